@@ -7058,20 +7058,42 @@ static ZSTD_inBuffer inBuffer_forEndFlush(const ZSTD_CStream* zcs)
     return stableInput ? zcs->expectedInBuffer : nullInput;
 }
 
+/* ZSTD_flushStream() and ZSTD_endStream() work on a private copy of the stable input buffer :
+ * the caller never sees how far it was consumed. When the call went back over bytes that were
+ * already reported as consumed (stableIn_notConsumed) and could not compress all of them,
+ * the rest is still owed : it goes back to stableIn_notConsumed, and the recorded position
+ * remains the one the caller holds. */
+static void ZSTD_keepCallerPosition(ZSTD_CStream* zcs, const ZSTD_inBuffer* input, size_t callerPos, size_t result)
+{
+    if (ZSTD_isError(result)) return;
+    if (zcs->streamStage == zcss_init) return;   /* frame completed : everything was consumed */
+    if (zcs->appliedParams.inBufferMode != ZSTD_bm_stable) return;
+    if (input->pos < callerPos) {
+        zcs->stableIn_notConsumed = callerPos - input->pos;
+        zcs->expectedInBuffer.pos = callerPos;
+    }
+}
+
 /*! ZSTD_flushStream() :
  * @return : amount of data remaining to flush */
 size_t ZSTD_flushStream(ZSTD_CStream* zcs, ZSTD_outBuffer* output)
 {
     ZSTD_inBuffer input = inBuffer_forEndFlush(zcs);
+    size_t const callerPos = input.pos;
     input.size = input.pos; /* do not ingest more input during flush */
-    return ZSTD_compressStream2(zcs, output, &input, ZSTD_e_flush);
+    {   size_t const remainingToFlush = ZSTD_compressStream2(zcs, output, &input, ZSTD_e_flush);
+        ZSTD_keepCallerPosition(zcs, &input, callerPos, remainingToFlush);
+        return remainingToFlush;
+    }
 }
 
 
 size_t ZSTD_endStream(ZSTD_CStream* zcs, ZSTD_outBuffer* output)
 {
     ZSTD_inBuffer input = inBuffer_forEndFlush(zcs);
+    size_t const callerPos = input.pos;
     size_t const remainingToFlush = ZSTD_compressStream2(zcs, output, &input, ZSTD_e_end);
+    ZSTD_keepCallerPosition(zcs, &input, callerPos, remainingToFlush);
     FORWARD_IF_ERROR(remainingToFlush , "ZSTD_compressStream2(,,ZSTD_e_end) failed");
     if (zcs->appliedParams.nbWorkers > 0) return remainingToFlush;   /* minimal estimation */
     /* single thread mode : attempt to calculate remaining to flush more precisely */
